@@ -192,6 +192,53 @@ theorem C11_tables_are_the_sources :
     Holds Gen.version (fun v => v = VERSION) :=
   ⟨tie_errors, tie_magic, tie_version⟩
 
+/-! ## The reserved header field
+
+Bytes 6–7 of a request header (the 'vbucket id') sit where a response header has its status. Nothing the server does or
+answers depends on them. -/
+
+/-- the same request with another reserved field -/
+def Req.withVbucket (v : Nat) : Req → Req
+  | .get h k => .get { h with vbucket := v } k
+  | .delete h k => .delete { h with vbucket := v } k
+  | .set h f e k x => .set { h with vbucket := v } f e k x
+  | .append h k x => .append { h with vbucket := v } k x
+  | .delta h d i e k => .delta { h with vbucket := v } d i e k
+  | .headerOnly h => .headerOnly { h with vbucket := v }
+  | .flush h e => .flush { h with vbucket := v } e
+  | .tooLarge h => .tooLarge { h with vbucket := v }
+  | .notSupported h => .notSupported { h with vbucket := v }
+
+/-- parsing does not look at the reserved field: the same request comes out, carrying the other value -/
+theorem parseBody_vbucket (h : ReqHeader) (body : Bytes) (v : Nat) :
+    parseBody { h with vbucket := v } body = (parseBody h body).map (Req.withVbucket v) := by
+  have hv : ∀ b, requestValid { h with vbucket := v } b = requestValid h b := fun _ => rfl
+  have hl : valueLen { h with vbucket := v } = valueLen h := rfl
+  unfold parseBody
+  simp only [hv, hl]
+  cases opGroup h.opcode <;> simp only []
+  · cases requestValid h true <;> simp [Req.withVbucket]
+  · cases requestValid h true <;> simp [Req.withVbucket]
+  · cases requestValid h true <;> simp [Req.withVbucket]
+    by_cases hc : body.length < 8 + h.keyLen + valueLen h <;> simp [hc, Req.withVbucket]
+  · cases requestValid h true <;> simp [Req.withVbucket]
+  · cases requestValid h true <;> simp [Req.withVbucket]
+    by_cases hc : body.length < 20 + h.keyLen <;> simp [hc, Req.withVbucket]
+  · cases requestValid h false <;> simp [Req.withVbucket]
+  · cases requestValid h false <;> simp [Req.withVbucket]
+  · simp [Req.withVbucket]
+  · simp
+
+/-- **the reserved field of a request never reaches the store or the response**: for every store, clock and request, the
+    state afterwards and the response (status, opaque, CAS, body — every field) are those of the same request with any other
+    value in that field -/
+theorem C11_reserved_field_ignored {σ : Type} (C : CacheOps σ) (s : σ) (now : Nat) (req : Req) (v : Nat) :
+    handleRequest C s now (req.withVbucket v) = handleRequest C s now req := by
+  cases req <;> rfl
+
+/-- acceptance of a header does not depend on it either -/
+theorem headerValid_vbucket (h : ReqHeader) (v : Nat) : headerValid { h with vbucket := v } = headerValid h := rfl
+
 end Memc
 
 #print axioms Memc.errorResp_wf
@@ -206,3 +253,6 @@ end Memc
 #print axioms Memc.C11_header_roundtrip
 #print axioms Memc.C11_client_framing
 #print axioms Memc.C11_tables_are_the_sources
+#print axioms Memc.parseBody_vbucket
+#print axioms Memc.C11_reserved_field_ignored
+#print axioms Memc.headerValid_vbucket
